@@ -269,6 +269,11 @@ class Run:
         rec.pre = getattr(self.compiler, "last", (None, None))[1]
         self.records.append(rec)
         hdr = getattr(self.compiler, "header", None)
+        last = getattr(self.compiler, "last", None)
+        if last is not None:
+            # the compile-level checks (C16/C17) also look at documents the state model cannot represent
+            self.instance, self.init_state = last
+            self._emit_compile_lines()
         if hdr is None:
             # compile failed or the result is outside the model's types
             self.unrep = getattr(self.compiler, "unrep", None)
@@ -276,7 +281,6 @@ class Run:
             rec.result = None
             return False
         c = sc["cfg"]
-        self._emit_compile_lines()
         self.cmds += hdr
         self.cmds.append(proto.cfg_line(c.get("allow_early", True), c.get("joker", 5), c.get("trunc_active", False),
                                         c.get("sparse", 1), c.get("dense", 0.001), c.get("trunc", -1),
